@@ -31,9 +31,10 @@ fn main() {
     for p in &parts {
         vglue::case::run_part(p, &props::flag_names(prop), 0b101_1111, &props::run_case, &mut rep);
     }
-    if let Err(e) = std::panic::catch_unwind(std::panic::AssertUnwindSafe(|| props::extra(prop, tier, &mut rep))) {
-        let msg = e.downcast_ref::<String>().cloned().or_else(|| e.downcast_ref::<&str>().map(|x| x.to_string())).unwrap_or_default();
-        rep.violation(vcommon::report::Violation { signature: "panic".into(), case: serde_json::json!({"special": "extra engines"}), detail: format!("subject panicked outside the sweep: {}", msg) });
+    if vcommon::report::smoke() {
+        // reduced plan: no extra engines
+    } else if let Err(e) = std::panic::catch_unwind(std::panic::AssertUnwindSafe(|| props::extra(prop, tier, &mut rep))) {
+        vcommon::sweep::report_outer_panic(&mut rep, "extra engines", e);
     }
     props::finalize(prop, tier, &mut rep);
     std::process::exit(rep.finish());
